@@ -376,8 +376,40 @@ def r4(ctx, R, adder, resolver):
             R.violation("C18.R4", g.short, "call order " + " < ".join(order), loc(g, g.node), f"filters do not see the final settings: positions {pos}")
 
 
+def r5(ctx, R):
+    """The expansion primitive decides which names a `*` can match.  pathlib's Path.glob /
+    rglob and fnmatch let `*` match names that begin with a dot; glob.glob / glob.iglob skip
+    them unless include_hidden=True: an exclusion `gen/*` would then keep gen/.scratch.f90 in
+    the index and `**` would leave out sources in dot-directories."""
+    R.rule("C18.R5", "glob patterns are expanded by a primitive whose `*` also matches names beginning with a dot (every directory or file matched by a pattern is in / out, hidden or not)", floor=1, confirmed=2)
+    g = ctx.m.fn_opt("resolve_globs")
+    if g is None:
+        R.undecided("C18.R5", "resolve_globs", "expansion primitive", ("fortls/helper_functions.py", 1), "resolve_globs not found")
+        return
+    n = 0
+    for c in calls_in(g.node):
+        d = ctx.m.dotted(g.rel, c.func) if isinstance(c.func, (ast.Name, ast.Attribute)) else None
+        st = ctx.m.enclosing_stmt(c)
+        if d in ("glob.glob", "glob.iglob", "glob.glob0", "glob.glob1"):
+            n += 1
+            hidden = any(kw.arg == "include_hidden" and isinstance(kw.value, ast.Constant) and kw.value.value is True for kw in c.keywords)
+            if hidden:
+                R.ok("C18.R5", g.short, key(g, st), loc(g, c), f"{d}(..., include_hidden=True)")
+            else:
+                R.violation("C18.R5", g.short, key(g, st), loc(g, c), f"{d}() does not let `*` / `**` match names that begin with a dot: source directories such as `.hidden/` are no longer found by `**`, and files such as `gen/.scratch.f90` are no longer removed by the exclusion `gen/*`")
+        elif isinstance(c.func, ast.Attribute) and c.func.attr in ("glob", "rglob") and d not in ("glob.glob",):
+            n += 1
+            R.ok("C18.R5", g.short, key(g, st), loc(g, c), f"pathlib .{c.func.attr}(): `*` matches hidden names too")
+        elif d and d.startswith("fnmatch."):
+            n += 1
+            R.ok("C18.R5", g.short, key(g, st), loc(g, c), f"{d}: `*` matches hidden names too")
+    if n == 0:
+        R.undecided("C18.R5", g.short, "expansion primitive", loc(g, g.node), "no glob primitive recognised in resolve_globs")
+
+
 def run(ctx, R):
     r1(ctx, R)
     r2(ctx, R)
     adder, resolver = r3(ctx, R)
     r4(ctx, R, adder, resolver)
+    r5(ctx, R)
